@@ -99,7 +99,9 @@ def template(name):
             _c("sPB", "o", Obs("distance", "P", "B", stdev=2.0), noisy=False, fixed_err=0.3),
         ]
         return Template(name, pts, cand)
-    if name == "T2C":
+    if name in ("T2C", "T2Ci"):
+        # T2Ci: the same document declared in an inconsistent frame (axes-xy="en", angles="left-handed"): gama mirrors y
+        # internally and mirrors it back on output; with coordinates and distances only every printed number is the same
         # observed coordinates (GNSS-like <coordinates> clusters): G1 and G2 are tied to the network only by
         # observed coordinates with DIAGONAL covariance matrices (and by one distance with bearing exactly 0,
         # coefficients exactly (1,0)): their xy covariance is exactly 0; G1 has sigma_x < sigma_y in both
@@ -261,6 +263,7 @@ def build_net(T, subset, signs, params, passive=()):
         clusters[key].obs.append(o)
     cl = [clusters[k] for k in order]
     net = Net(pts, cl, **params)
+    if T.name == "T2Ci": net.attrs["axes-xy"] = "en"; net.attrs["angles"] = "left-handed"
     gnet.fill_values(net)
     for k, (key, pos) in enumerate(sorted(passive, key=lambda kp: (kp[0], kp[1]))):
         o, pt = passive_obs(T, key, k + 1)
@@ -867,6 +870,8 @@ def oracle(net, R, text, info=None):
         for src, Cm, rel in (("xml-cov", M, 3e-7), ("ref-cov", covref, 2e-6), ("ref-cofactors", Q1, 2e-6)):
             cxx, cyy, cxy = Cm[ix][ix], Cm[iy][iy], Cm[ix][iy]
             if cxx is None or cxy is None: continue
+            if net.attrs.get("axes-xy") == "en" and net.attrs.get("angles") == "left-handed":
+                cxy = -cxy       # inconsistent frame (T2Ci): the bearing is counted in gama's working frame, y mirrored
             if src != "xml-cov" and sm.get("cov-mismatch"): continue      # already reported; only the internal consistency is checked
             tr = cxx + cyy
             c = math.hypot(cxx - cyy, 2 * cxy)
